@@ -526,8 +526,8 @@ PROPS = {
         "assumptions": ["join predicate symmetric (both shipped specs are)", "extensions reference only present k-mers"],
     },
     "C03": {
-        "lean_modules": ["Dbg.Props.C03", "Dbg.Props.C03b", "Dbg.Props.C09c"],
-        "theorems": ["Pipeline.C03_adjacency_exact", "Graph.C03_maxPath_fuel", "Graph.C03_maxPathBeam_trail", "Graph.C03_maxPathBeam_sequence", "Graph.C03_maxPathBeam_terminates", "CompressGraph.C09_result_wellformed", "Graph.C03_link_exact", "Graph.C03_edges_complete", "Graph.C03_exts_resolve_from_reads", "Graph.C03_observed_adjacency_recorded", "Compress.ext_target_port", "Compress.findLink_complete", "Graph.C03_ginv_of_compress", "Graph.C03_edges_symmetric_from_reads", "Graph.C03_edges_symmetric", "Graph.C03_ginv_decidable", "Graph.C03_prune_exact", "Graph.C03_valid_exts_exact", "Graph.C03_edges_justified", "Graph.C03_walk_sequence", "Graph.C03_maxPath_walk", "Graph.C03_maxPath_sequence", "Graph.edge_overlap", "Graph.findLink_sound", "Graph.searchKmer_sound", "Graph.searchKmer_complete", "Graph.findLink_exts_irrelevant"],
+        "lean_modules": ["Dbg.Props.C03", "Dbg.Props.C03b", "Dbg.Props.C09c", "Dbg.Lemmas.IsCompressed"],
+        "theorems": ["Graph.C03_maxPathBeam_returns", "Compress.PGraph.resolving", "Pipeline.C03_adjacency_exact", "Graph.C03_maxPath_fuel", "Graph.C03_maxPathBeam_trail", "Graph.C03_maxPathBeam_sequence", "Graph.C03_maxPathBeam_terminates", "CompressGraph.C09_result_wellformed", "Graph.C03_link_exact", "Graph.C03_edges_complete", "Graph.C03_exts_resolve_from_reads", "Graph.C03_observed_adjacency_recorded", "Compress.ext_target_port", "Compress.findLink_complete", "Graph.C03_ginv_of_compress", "Graph.C03_edges_symmetric_from_reads", "Graph.C03_edges_symmetric", "Graph.C03_ginv_decidable", "Graph.C03_prune_exact", "Graph.C03_valid_exts_exact", "Graph.C03_edges_justified", "Graph.C03_walk_sequence", "Graph.C03_maxPath_walk", "Graph.C03_maxPath_sequence", "Graph.edge_overlap", "Graph.findLink_sound", "Graph.searchKmer_sound", "Graph.searchKmer_complete", "Graph.findLink_exts_irrelevant"],
         "partial": [],
         "n_quick": 3000, "n_thorough": 200000,
         "nontrivial": lambda toks, impl: impl != "panic" and (toks[1] != "graph" or toks[4].count(",") >= 1), "tags": _c03_tags,
